@@ -465,6 +465,8 @@ int main(){
             std::cout << "PI " << top->getNbRepetitionsPerDim() << " " << top->getNbTotalRepetitions();
             for(long d = 0 ; d < Dim ; ++d) std::cout << " " << iv.first[d] << ":" << iv.second[d];
             std::cout << "\n";
+            // what the kernel the top tree built for itself was constructed from (unit box: widths and centres are integers / halves)
+            top->applyToAllKernels([&](const auto& k){ std::cout << "TK " << k.cfgHeight << " " << long(k.cfgWidth0) << " " << long(2 * (k.cfgCenter0 - Geom::corner()[0])) << "\n"; });
             auto stage = [&](int flags){
 #ifdef USE_OMP
                 if(omp){
